@@ -36,6 +36,7 @@ def run(ctx):
     r20e(ctx)
     r20f(ctx)
     r20g(ctx)
+    r20h(ctx)
 
 
 def hash_enum(prog):
@@ -454,3 +455,50 @@ def r20g(ctx):
                 ctx.bad('R20g', key, 'an iteration of the canonicalising loop can finish without appending the current document octet: '
                         'that octet is not covered by the signature (it can be inserted or removed without invalidating it)', f)
     ctx.floor('R20g', n, 3)
+
+
+def r20h(ctx):
+    """associated data of the AEAD chunks: what is handed to gcry_cipher_authenticate binds the chunk to its position
+    (packet header octets, chunk index; for the final tag also the total length).  In every function that authenticates a
+    buffer, the cells of that buffer are *assigned* -- a compound assignment (^=, |=, +=) to a cell makes the field a running
+    combination of all indices so far: chunks 0 and 3 (0^1^2^3 = 0) then carry the same associated data and can be exchanged
+    without any tag failing."""
+    from ..facts import walk
+    prog = ctx.prog
+    n = 0
+    for k, f in sorted(prog.funcs.items(), key=lambda kv: (kv[1]['file'], kv[1]['line'])):
+        if not f.get('body') or 'RFC4880' not in f['file']:
+            continue
+        bufs = {}
+        for e in walk(f['body']):
+            if e.get('k') == 'call' and e.get('f') == 'gcry_cipher_authenticate' and len(e.get('a', [])) >= 2:
+                b = e['a'][1]
+                while isinstance(b, dict) and b.get('k') == 'cast':
+                    b = b['e']
+                if isinstance(b, dict) and b.get('k') == 'var':
+                    bufs[b['id']] = b.get('n')
+        if not bufs:
+            continue
+        bad = []
+        nw = 0
+        for e in walk(f['body']):
+            if e.get('k') == 'bin' and e.get('op', '').endswith('=') and e['op'] not in ('==', '!=', '<=', '>='):
+                t = e['a'][0]
+                while isinstance(t, dict) and t.get('k') == 'cast':
+                    t = t['e']
+                if isinstance(t, dict) and (t.get('k') == 'idx' or (t.get('k') == 'opcall' and t.get('op') == '[]')):
+                    b = t['a'][0]
+                    while isinstance(b, dict) and b.get('k') == 'cast':
+                        b = b['e']
+                    if isinstance(b, dict) and b.get('k') == 'var' and b.get('id') in bufs:
+                        nw += 1
+                        if e['op'] != '=':
+                            bad.append((e.get('l'), bufs[b['id']], e['op']))
+        n += 1
+        key = 'R20h:%s' % f['q']
+        if bad:
+            ctx.bad('R20h', key, 'a cell of the authenticated buffer `%s` is updated with `%s` (line %s) instead of being assigned: the chunk index field of the associated '
+                    'data becomes a running combination of all indices, and chunks whose combinations coincide can be exchanged undetected' % (bad[0][1], bad[0][2], bad[0][0]), f, line=bad[0][0])
+        else:
+            ctx.ok('R20h', key, 'all %d writes to cells of the authenticated buffer are plain assignments' % nw, f)
+    ctx.floor('R20h', n, 2)
